@@ -31,8 +31,9 @@ DISK = {
 	'b': 'from vm.c import make\n\nv = make()\n',
 	# (a class and a function returning it: main holds a list in which the class is reached through the imported class itself and
 	# through the signature declared in a - two generations of a must not meet in one type)
-	'a': 'from vm.b import v\n\nx = v\n\ndef twice(n: int) -> int:\n\treturn n * 2 + x\n\nclass A:\n\tn: int\n\n\tdef __init__(self, n: int) -> None:\n\t\tself.n = n\n\ndef mka() -> A:\n\treturn A(3)\n',
-	# (the generic function stands at the same tree path as the only function of a and of c: anything remembered per tree path across modules shows)
+	# (`twice` is the fourth statement of a, as the generic `ident` is the fourth statement of d: both are `function_def[3]`)
+	'a': 'from vm.b import v\n\nx = v\n\nclass A:\n\tn: int\n\n\tdef __init__(self, n: int) -> None:\n\t\tself.n = n\n\ndef twice(n: int) -> int:\n\treturn n * 2 + x\n\ndef mka() -> A:\n\treturn A(3)\n',
+	# (the generic function stands at the same tree path as a function of a: anything remembered per tree path across modules shows)
 	# (... and a generic class of the module itself takes a class declared further down as its type argument: the stored
 	# symbol table has to list `Late` before the key that mentions it, whatever was registered under `Box` before)
 	'd': "from typing import Generic, TypeVar\n\nT = TypeVar('T')\n\nclass K:\n\tn: int\n\tdef __init__(self, n: int) -> None:\n\t\tself.n = n\n\ndef ident(v: T) -> T:\n\treturn v\n\nk = K(1)\n\ndef mk() -> K:\n\treturn K(3)\n"
